@@ -50,12 +50,17 @@ def writer_param_delims(ctx):
     m = ctx.model
     ti = m.own_method("parser.Parameters.to_ical")
     out = {}
-    for n in walk_no_nested(ti.node):
-        if isinstance(n, ast.Return) and isinstance(n.value, ast.Call) \
-                and isinstance(n.value.func, ast.Attribute) \
-                and n.value.func.attr == "join" \
-                and isinstance(n.value.func.value, ast.Constant):
-            out["param"] = _s(n.value.func.value.value)
+    acc = None
+    for c in ast.walk(ti.node):
+        if isinstance(c, ast.Call) and isinstance(c.func, ast.Attribute) \
+                and c.func.attr == "append" and c.args \
+                and isinstance(c.func.value, ast.Name):
+            acc = c.func.value.id
+    for n in ast.walk(ti.node):
+        if isinstance(n, ast.Call) and isinstance(n.func, ast.Attribute) \
+                and n.func.attr == "join" and isinstance(n.func.value, ast.Constant) \
+                and n.args and isinstance(n.args[0], ast.Name) and n.args[0].id == acc:
+            out["param"] = _s(n.func.value.value)
     for c in ast.walk(ti.node):
         if isinstance(c, ast.Call) and isinstance(c.func, ast.Attribute) \
                 and c.func.attr == "append" and c.args:
@@ -288,6 +293,59 @@ def run(ctx):
     ctx.check(seq_branch, "C08/ARITY", "writer joins the whole list",
               "param_value must send list/tuple values to q_join unchanged",
               pv.loc(), detail="isinstance(value, SEQUENCE_TYPES) -> q_join(value)")
+
+    # every appended value is the split text itself (quotes stripped / strict
+    # upper-casing only): any other decoding step has no inverse in the writer
+    tgt = lp.target.id if isinstance(lp.target, ast.Name) else None
+    envf = SymEnv(fi.node)
+    for ap_i, ap in enumerate(sorted(appends, key=lambda c: (c.lineno, c.col_offset))):
+        e = ap.args[0]
+        cur = e
+        steps = []
+        # follow local re-assignments of the loop variable inside the loop body
+        seen_guard = 0
+        while seen_guard < 6:
+            seen_guard += 1
+            if isinstance(cur, ast.Call) and isinstance(cur.func, ast.Attribute) \
+                    and cur.func.attr in ("strip", "upper") \
+                    and (cur.func.attr == "upper" or (cur.args and isinstance(cur.args[0], ast.Constant)
+                                                      and cur.args[0].value == '"')):
+                steps.append(cur.func.attr)
+                cur = cur.func.value
+                continue
+            if isinstance(cur, ast.Name) and cur.id == tgt:
+                # was the loop variable reassigned before this append?
+                reass = [n for n in ast.walk(lp) if isinstance(n, ast.Assign)
+                         and isinstance(n.targets[0], ast.Name) and n.targets[0].id == tgt
+                         and n.lineno < ap.lineno]
+                bad = [n for n in reass if not (
+                    isinstance(n.value, ast.Call) and isinstance(n.value.func, ast.Attribute)
+                    and n.value.func.attr in ("strip", "upper")
+                    and isinstance(n.value.func.value, ast.Name) and n.value.func.value.id == tgt)]
+                cur = None if not bad else bad[0].value
+                break
+            break
+        ctx.check(cur is None, "C08/VALUE-PATH", f"reader keeps split value verbatim (append #{ap_i + 1})",
+                  f"Parameters.from_ical stores `{dump(e)[:60]}`: a decoding step "
+                  f"(`{dump(cur)[:50] if cur is not None else ''}`) that the writer "
+                  f"(param_value/dquote) does not apply in reverse", fi.loc(ap),
+                  detail="v / v.strip('\"') / v.upper() (strict)")
+
+    # ---- FRESH: to_ical depends on the current items only ---------------------
+    mapping_api = {"items", "keys", "values", "sorted_items", "sorted_keys", "get"}
+    hidden = [n for n in ast.walk(ti.node) if isinstance(n, ast.Attribute)
+              and isinstance(n.value, ast.Name) and n.value.id == ti.params[0]
+              and n.attr not in mapping_api]
+    ctx.check(not hidden, "C08/FRESH", "to_ical reads only the current items",
+              f"Parameters.to_ical touches self.{hidden[0].attr if hidden else ''}: "
+              f"output that depends on stored state (a cache) goes stale when a "
+              f"list value is edited in place or pop()/clear() are used",
+              ti.loc(hidden[0]) if hidden else ti.loc(), detail="self.items() only")
+    over = [name for name in ("__setitem__", "__delitem__", "pop", "update", "clear", "popitem")
+            if name in m.cls("parser.Parameters").methods]
+    ctx.check(not over, "C08/FRESH", "Parameters adds no mutation hooks",
+              f"Parameters overrides {over}: per-operation bookkeeping that other "
+              f"mutators bypass", m.cls("parser.Parameters").loc(), detail="none")
 
     # ---- CASE --------------------------------------------------------------
     up = None
